@@ -169,6 +169,7 @@ func drawC01(t *rapid.T, maxBlock, maxTotal int) C01Case {
 	if names := chainNames(c.Cfg.Transform); len(names) > 0 {
 		if aff, ok := c13Affinity[names[0]]; ok && rapid.IntRange(0, 2).Draw(t, "affine") == 0 {
 			c.Data.Kind = rapid.SampledFrom(aff).Draw(t, "affkind")
+			gen.FixEdge(t, &c.Data, "data")
 			if c.Data.Len < 2*bs && maxLen >= 3*bs {
 				c.Data.Len += 2 * bs // several blocks: cuts between CR and LF, inside code points, inside runs
 			}
